@@ -14,10 +14,13 @@
 EXTENDS Ingest, TLC, Json
 
 CONSTANTS N,        \* maximal number of input rows
-          Shapes, Runs, Pads
+          Shapes, Runs, Pads,
+          Rems      \* sets of removed (non-key) columns, for the sorter's outputs (C19): subsets of
+                    \* {"f0", "f1", "v"} = the filler column before the key columns, the one
+                    \* between them, and the payload column after them; {{}} for ingest
 
-VARIABLES input, shape, run, pad, phase
-vars == <<input, shape, run, pad, phase>>
+VARIABLES input, shape, run, pad, rem, phase
+vars == <<input, shape, run, pad, rem, phase>>
 
 Rows == {<<a, b, p>> : a \in {0, 2}, b \in {0, 2}, p \in {0, 1}}
 Inputs == UNION {[1..n -> Rows] : n \in 0..N}
@@ -31,12 +34,14 @@ Init == /\ input = <<>>
         /\ run \in Runs
         /\ pad \in Pads
         /\ ~(run = 1 /\ pad > 0)   \* every row its own spill file: only without padding
+        /\ rem \in Rems
+        /\ shape = "n" => rem = {}  \* without a key every column is key material: nothing is removed
         /\ phase = "pick"
 Next == /\ phase = "pick"
         /\ phase' = "done"
         /\ input' \in Inputs
-        /\ UNCHANGED <<shape, run, pad>>
-        /\ PrintT(<<"SCN", ToJson([in |-> input', sh |-> shape, run |-> run, pad |-> pad,
+        /\ UNCHANGED <<shape, run, pad, rem>>
+        /\ PrintT(<<"SCN", ToJson([in |-> input', sh |-> shape, run |-> run, pad |-> pad, rem |-> rem,
                                     exp |-> Expected(input', shape), padAt |-> PadAt(input', shape)])>>)
 Spec == Init /\ [][Next]_vars
 
